@@ -198,31 +198,36 @@ static void judge_render(const char *kind, double x, bool arg_is_f32, int prec, 
     double unit = (double)(1.0L / P10[nfrac < 19 ? nfrac : 19]);
     double u32 = ulp32(ax > 1 ? ax : 1.0);
     double tol = unit + 4 * u32;
+    const char *m3 = ax < 2147483648.0 ? "abs<2^31" : ax < 18446744073709551616.0 ? "2^31<=abs<2^64" : "abs>=2^64";
+    if (err > tol)
+    {
+        snprintf(key, sizeof key, "render:%s:value:%s:%s", kind, prec < 0 ? "auto" : prec == 0 ? "P=0" : "P>0", m3);
+        vf::fail(key, "x=%a (%.17g) prec=%d text=\"%s\" error=%.6Lg tolerance=%.6g (10^-%d + 4*ulp32=%.3g) error/ulp32=%.2Lf", x, x, prec,
+                 vf::esc(buf, len).c_str(), err, tol, nfrac, u32, err / (long double)u32);
+    }
+    // largest observed error, as a fraction of the tolerance and (beyond one unit of the last digit) in binary32 ulps
     if (ax < 2147483648.0)
     {
-        if (err > tol)
-        {
-            snprintf(key, sizeof key, "render:%s:value:%s", kind, prec < 0 ? "auto" : prec == 0 ? "P=0" : "P>0");
-            vf::fail(key, "x=%a (%.17g) prec=%d text=\"%s\" error=%.6Lg tolerance=%.6g (10^-%d + 4*ulp32=%.3g)", x, x, prec, vf::esc(buf, len).c_str(),
-                     err, tol, nfrac, u32);
-        }
         VF_OK("render: |text - x| <= 10^-P + 4 ulp32(max(|x|,1)) for |x| < 2^31");
-        // largest observed error, as a fraction of the tolerance and (beyond one unit of the last digit) in binary32 ulps
         if (nfrac == 0) // P = 0 truncates by design of the statement's bound ("one unit of the last printed digit")
             VF_MAX("render: max error / tolerance at 0 fraction digits, ppm", (uint64_t)(err / tol * 1e6L));
         else
             VF_MAX("render: max error / tolerance at >= 1 fraction digits, ppm", (uint64_t)(err / tol * 1e6L));
         if (err > unit)
             VF_MAX("render: max error beyond 10^-P, milli-ulp32", (uint64_t)((err - unit) / u32 * 1e3L));
-        (void)arg_is_f32;
+    }
+    else if (ax < 18446744073709551616.0)
+    {
+        VF_OK("render: |text - x| <= 10^-P + 4 ulp32(|x|) for 2^31 <= |x| < 2^64");
+        VF_MAX("render: 2^31 <= |x| < 2^64 max error / tolerance, ppm", (uint64_t)(err / tol * 1e6L));
     }
     else
     {
-        // beyond the int32 integer part only the safety clauses are demanded; the error is reported, not judged
-        VF_OK("render: |x| >= 2^31: safety clauses only");
-        long double rel = err / (long double)ax;
-        VF_MAX("render: |x| >= 2^31 max relative error, ppm (reported only)", (uint64_t)(rel > 1e6L ? 1e12L : rel * 1e6L));
+        VF_OK("render: |text - x| <= 10^-P + 4 ulp32(|x|) for |x| >= 2^64");
+        VF_MAX("render: |x| >= 2^64 max error / tolerance, ppm", (uint64_t)(err / tol * 1e6L));
+        VF_MAX("render: |x| >= 2^64 max error, milli-ulp32", (uint64_t)(err / u32 * 1e3L));
     }
+    (void)arg_is_f32;
 }
 
 enum Renderer { R_F32, R_F64, R_FTOA };
@@ -236,7 +241,7 @@ static void render_f32(float f, int prec, bool crosscheck)
         printf("  igris_f32toa(%a = %.9g [0x%08x], prec=%d)\n", (double)f, (double)f, bits_of(f), prec);
     char *r = igris_f32toa(f, o.p, (int8_t)prec);
     judge_render("igris_f32toa", (double)f, true, prec, o.p, r);
-    if (crosscheck && std::isfinite(f) && fabsf(f) < 2147483648.0f)
+    if (crosscheck && std::isfinite(f))
     {
         // second opinion on the harness' own decimal reader: glibc strtod of the same text
         double g = strtod(o.p, nullptr);
@@ -722,7 +727,7 @@ static void rt_run(uint64_t c)
     {
         uint32_t b = biased32(r);
         float f = f32_of(b);
-        if (!std::isfinite(f) || fabsf(f) >= 2147483648.0f)
+        if (!std::isfinite(f))
             continue;
         int p = r.range(-1, 10);
         o.arm();
@@ -742,7 +747,9 @@ extern "C" void vf_setup()
     for (const char *c : {"render: inf/nan -> token with the right sign, returned pointer == buf",
                           "render: only [-0-9.] characters, NUL inside the block, nothing written behind the text",
                           "render: shape -?digits[.digits] with exactly the requested number of fraction digits",
-                          "render: |text - x| <= 10^-P + 4 ulp32(max(|x|,1)) for |x| < 2^31", "render: |x| >= 2^31: safety clauses only",
+                          "render: |text - x| <= 10^-P + 4 ulp32(max(|x|,1)) for |x| < 2^31",
+                          "render: |text - x| <= 10^-P + 4 ulp32(|x|) for 2^31 <= |x| < 2^64", "render: |text - x| <= 10^-P + 4 ulp32(|x|) for |x| >= 2^64",
+                          "powers of two: 2^e and its +-1, +-2 ulp neighbours, every precision, float and double entry points",
                           "render: glibc strtod(text) agrees with the harness' reader (sample)",
                           "sweep: 2^16 consecutive binary32 patterns x precisions {-1,0,3,10}",
                           "parse: value within (4 + scaling steps) ulp of glibc strtod, all five entry points",
